@@ -16,9 +16,11 @@ TECHNIQUE = ("property-based testing (Hypothesis): generated DCOPs x agent sets 
 LEVEL_TEXT = ("Generated DCOPs (1-5 variables, domains of 1-3 values, 0-6 matrix/expression constraints of arity 1-3, "
               "variable costs, min and max) with at least as many agents as variables and ample capacity, distributed "
               "by oneagent, adhoc or gh_cgdp (harness footprint/load functions, DPOP defining none) or by a "
-              "generated valid mapping; run by run_local_thread_dcop + deploy_computations + run(timeout=20) - the "
-              "calls `pydcop solve` and infrastructure.run.solve make - with real agent threads; perturbation = "
-              "generated sys.setswitchinterval and generated micro-sleeps injected into Messaging.post_msg. Oracle: "
+              "generated valid mapping; over-constrained instances (hard entries equal to the infinity constant) "
+              "included; run by run_local_thread_dcop + deploy_computations + run(timeout=12) - the calls `pydcop "
+              "solve` and infrastructure.run.solve make - on a harness thread with a 24 s deadline, with real agent "
+              "threads, one of which may be started 20-300 ms late; perturbation = generated sys.setswitchinterval and "
+              "generated micro-sleeps injected into Messaging.post_msg. Oracle: the API sequence returns; "
               "the orchestrator's status is not TIMEOUT and every computation reported end_of_computation before the "
               "agents were stopped; end_metrics()['assignment'] covers every variable with a value of its domain; "
               "the independent cost of that assignment equals the brute-force optimum; the reported cost and "
@@ -40,8 +42,23 @@ INFINITY = 10000
 @st.composite
 def cases(draw):
     nv = draw(st.sampled_from([1, 2, 3, 3, 4, 4, 5]))
+    # Variable names starting with 'B' or '_' are left to the pinned case of the listed finding
+    # C22-technical-looking-variable-name (the runtime takes them for technical computations and the run never
+    # starts): each such run would only burn the 40 s deadline.
     dcop = draw(gen.dcops(min_vars=nv, max_vars=nv, max_dom=3, max_constraints=6, arities=(1, 2, 3),
-                          kinds=("matrix", "expr"), var_costs=True, min_constraints=min(nv - 1, 3)))
+                          kinds=("matrix", "expr"), var_costs=True, min_constraints=min(nv - 1, 3)).filter(
+        lambda d: not any(v["name"].startswith(("B", "_")) for v in d["variables"])))
+    if dcop["objective"] == "min" and draw(st.integers(0, 3)) == 0:
+        # hard entries (cost == the infinity constant of the run) in the extensional constraints: possibly an
+        # over-constrained problem, whose optimum still carries violations that must be counted as such
+
+        def plant(t):
+            if isinstance(t, list):
+                return [plant(x) for x in t]
+            return INFINITY if draw(st.sampled_from([0, 0, 1])) else t
+        for c in dcop["constraints"]:
+            if c["kind"] == "matrix":
+                c["table"] = plant(c["table"])
     na = nv + draw(st.integers(0, 2))
     return {"dcop": dcop, "n_agents": na,
             "distribution": draw(st.sampled_from(["oneagent", "adhoc", "gh_cgdp", "mapping"])),
@@ -49,6 +66,10 @@ def cases(draw):
             "hosting": draw(st.lists(st.sampled_from([1, 2, 5, 10]), min_size=na, max_size=na)),
             # every computation has footprint 1: a capacity of 2 or 3 spreads the computations over several agents
             "capacity": draw(st.sampled_from([2, 2, 3, 1000])),
+            # one agent's thread is started late (agents of a real deployment do not come up at the same instant):
+            # [agent index, delay in ms] or None
+            "late_start": draw(st.one_of(st.none(), st.none(), st.tuples(st.integers(0, na - 1),
+                                                                        st.sampled_from([20, 100, 300])))),
             "switch_us": draw(st.sampled_from([5, 50, 500, 5000])),
             "naps": draw(st.lists(st.sampled_from([0, 0, 0, 0, 1, 2, 5]), min_size=8, max_size=8)),
             "rng_seed": draw(st.integers(0, 10 ** 6))}
@@ -140,30 +161,78 @@ def run_case(case):
 
         orch_mod.AgentsMgt._on_computation_end_msg = on_end
         orch_mod.AgentsMgt._orchestrator_stop_agents = on_stop
+        from pydcop.infrastructure import orchestratedagents as oa_mod
+        orig_agent_start = oa_mod.OrchestratedAgent.start
+        late = case.get("late_start")
+        late_timers = []
+
+        def agent_start(self, *a, **k):
+            if late and self.name == "a%02d" % late[0]:
+                t = threading.Timer(late[1] / 1000.0, lambda: orig_agent_start(self, *a, **k))
+                t.daemon = True
+                late_timers.append((t, self))
+                t.start()
+            else:
+                orig_agent_start(self, *a, **k)
+        oa_mod.OrchestratedAgent.start = agent_start
+        if late:
+            labels.append("late-agent:" + ("idle" if agents[late[0]].name not in hosting_agents else "hosting"))
         fatal = []
         try:
             sys.setswitchinterval(case["switch_us"] / 1e6)
             _patch_state["naps"] = list(case["naps"])
-            with under_test():
-                orchestrator = run_local_thread_dcop(algo, cg, distribution, dcop, INFINITY)
-                orchestrator.set_error_handler(lambda e: fatal.append(repr(e)[:300]))
-                orchestrator.deploy_computations()
-                orchestrator.run(timeout=20)
-                status = orchestrator.status
-                ended_at_return = list(ended)
-                metrics = orchestrator.end_metrics()
+            holder, phase, errs = {}, ["start"], []
+
+            def drive():
+                # the calls `pydcop solve` makes, on their own thread: run() first waits - without any time limit -
+                # until the deployment is complete
+                try:
+                    with under_test():
+                        o = run_local_thread_dcop(algo, cg, distribution, dcop, INFINITY)
+                        holder["o"] = o
+                        o.set_error_handler(lambda e: fatal.append(repr(e)[:300]))
+                        phase[0] = "deploy"
+                        o.deploy_computations()
+                        phase[0] = "run"
+                        o.run(timeout=12)
+                        holder["status"] = o.status
+                        holder["ended"] = list(ended)
+                        holder["metrics"] = o.end_metrics()
+                        phase[0] = "returned"
+                except UnderTestError as e:
+                    errs.append(e)
+            th = threading.Thread(target=drive, daemon=True, name="api-caller")
+            th.start()
+            th.join(24)
+            orchestrator = holder.get("o")
+            if errs:
+                raise errs[0]
+            if th.is_alive():
+                technical = sorted(n for n in names if n.startswith(("B", "_")))
+                return Outcome(False, "the run never returned (stuck in its %s phase for 24 s, long after the 12 s "
+                                      "timeout should have ended it); variables %r, of which %r have a name the runtime "
+                                      "treats as technical" % (phase[0], names, technical), nontrivial, labels,
+                               info={"kind": "never-returned", "phase": phase[0], "technical_names": technical})
+            status, ended_at_return, metrics = holder["status"], holder["ended"], holder["metrics"]
         finally:
             _patch_state["naps"] = None
             sys.setswitchinterval(old_switch)
             orch_mod.AgentsMgt._on_computation_end_msg = orig_end
             orch_mod.AgentsMgt._orchestrator_stop_agents = orig_stop
-        ctx = "variables %r, constraints %r, distribution %s %r" % (
+            oa_mod.OrchestratedAgent.start = orig_agent_start
+            for t, obj in late_timers:
+                t.cancel()
+                try:
+                    obj.stop()
+                except Exception:
+                    pass
+        ctx ="variables %r, constraints %r, distribution %s %r" % (
             names, [c["scope"] for c in desc["constraints"]], case["distribution"], distribution.mapping())
         if fatal:
             return Outcome(False, "the orchestrator thread died: %s [%s]" % (fatal[0], ctx), nontrivial, labels,
                            info={"kind": "fatal"})
         if status == "TIMEOUT":
-            return Outcome(False, "the run ended by TIMEOUT after 20 s; computations that reported their end: %r of %r "
+            return Outcome(False, "the run ended by TIMEOUT after 12 s; computations that reported their end: %r of %r "
                                   "[%s]" % (sorted(ended_at_return), comp_names, ctx), nontrivial, labels,
                            info={"kind": "timeout"})
         if sorted(set(ended_at_return)) != comp_names:
@@ -188,9 +257,16 @@ def run_case(case):
             return Outcome(False, "reported cost/violation %r/%r differ from dcop.solution_cost %r/%r for %r [%s]" % (
                 metrics.get("cost"), metrics.get("violation"), own_cost, own_violation, assignment, ctx),
                 nontrivial, labels, info={"kind": "accounting"})
-        if own_violation != 0 or abs(own_cost - got) > 1e-9 * max(1, abs(got)):
-            return Outcome(False, "dcop.solution_cost gives (%r, %r) for %r, reference cost %r with no hard term [%s]" % (
-                own_violation, own_cost, assignment, got, ctx), nontrivial, labels, info={"kind": "accounting-ref"})
+        terms = [oracles.constraint_value(desc, c, assignment) for c in desc["constraints"]]
+        terms += [oracles.var_cost(desc, v, assignment[v["name"]]) for v in desc["variables"]]
+        ref_hard = sum(1 for t in terms if t == INFINITY)
+        ref_soft = sum(t for t in terms if t != INFINITY)
+        if ref_hard:
+            labels.append("optimum-with-violations")
+        if own_violation != ref_hard or abs(own_cost - ref_soft) > 1e-9 * max(1, abs(ref_soft)):
+            return Outcome(False, "dcop.solution_cost gives (%r, %r) for %r, reference accounting (%r hard terms, soft "
+                                  "cost %r) [%s]" % (own_violation, own_cost, assignment, ref_hard, ref_soft, ctx),
+                           nontrivial, labels, info={"kind": "accounting-ref"})
         return Outcome(True, "", nontrivial, labels)
     except UnderTestError as e:
         if e.exc_type == "ImpossibleDistributionException" and orchestrator is None:
@@ -218,3 +294,13 @@ def run_case(case):
             if not extra:
                 break
             time.sleep(0.05)
+
+
+def classify(case, out):
+    info = out.info or {}
+    # discovery._is_technical() treats every computation whose name starts with '_' or 'B' (the prefix of the repair
+    # computations) as technical: the orchestrator never sees the registration of such a variable's computation, the
+    # deployment is never complete and run() waits for ever, before its own timeout is even armed.
+    if info.get("kind") == "never-returned" and info.get("phase") == "run" and info.get("technical_names"):
+        return "C22-technical-looking-variable-name"
+    return None
